@@ -239,6 +239,21 @@ CLAIMED = {
              "API and read back with tools/profiling/dbpreader.c. Oracle: dictionary, infos, per-stream event sequence and payload bytes are "
              "equal, timestamps are monotone per stream.",
         design_ref="5/C42"),
+    "C15": dict(
+        engine="hypothesis+driver(E5 support)",
+        technique="Hypothesis-generated compositions (binary trees of parsec_compose over 1..20 pools incl. empty ones) run by a driver; global-stamp interval oracle",
+        text="Pools of 0..40 independent or chained tasks are composed in generated association orders and run under generated thread counts and "
+             "schedulers. Oracle: every task runs once, the stamp intervals of consecutive non-empty pools are disjoint and ordered, the "
+             "compound's completion callback runs exactly once after the last task and before parsec_context_wait returns.",
+        design_ref="5/C15"),
+    "C05": dict(
+        engine="ptg(E5)+mpi(E7)+hypothesis",
+        technique="generated PTG programs run on 2..4 MPI ranks with generated placement tables, broadcast topologies and short limits, judged by the reference interpreter",
+        text="The C01/C02 generator with remote edges: every instance runs on 2..4 ranks with a generated placement table (task and data "
+             "ownership derived from it), runtime_comm_coll_bcast in {star, chain, binomial}, short limits and tile sizes on both sides of the "
+             "limit. Oracle: every rank terminates (watchdog otherwise), each instance runs once on the rank the placement names, every input "
+             "value and the final collection contents equal the reference, which does not depend on P or the message path.",
+        design_ref="5/C05"),
     "C23": dict(
         engine="ptg(E5)+hypothesis",
         technique="generated parameter spaces; key distinctness and key_print round-trip oracle on the generated make_key/key_print",
